@@ -69,6 +69,9 @@ class SimGateway:
         # [(raw_cemi, seq[, extra log fields]), ...] delivered in the same callback as the next successful ConnectResponse
         # (list: consumed once; callable(gw) -> list: asked at every handshake). Empty = previous behaviour.
         self.behind_handshake: Any = []
+        # called (once, then cleared) right BEFORE a ConnectResponse is handed to the client's protocol: whatever it wakes
+        # up runs in the next loop iteration ahead of the client's connect() coroutine
+        self.before_handshake: Any = None
         self.errors: list[str] = []  # simulator-internal errors (harness errors, never violations)
 
     def attach(self, loop: Any) -> None:
@@ -224,6 +227,9 @@ class SimGateway:
             if tr.closed:
                 return
             self.epoch += 1
+            if self.before_handshake is not None:
+                cb, self.before_handshake = self.before_handshake, None
+                cb(self)
             self._log("s2c", frame, raw, handshake=True)
             if tr.kind == "udp":
                 tr.protocol.datagram_received(raw, GW_ADDR)
